@@ -213,3 +213,25 @@ func strsBytes(l []string) [][]int {
 	}
 	return r
 }
+
+// replayIndex: the index of the generated case a replay file names (case.index), -1 when there is no
+// replay file. Runners whose cases are generated as `for i { r := rng.Fork(); ... }` replay one case by
+// running the loop with the seed and tier of the file and skipping every other index.
+func replayIndex(replay string) int {
+	if replay == "" {
+		return -1
+	}
+	b, err := os.ReadFile(replay)
+	must(err)
+	var rp struct {
+		Case struct {
+			Index *int `json:"index"`
+		} `json:"case"`
+	}
+	must(json.Unmarshal(b, &rp))
+	if rp.Case.Index == nil {
+		fmt.Println("replay file names no case index: re-run the check with the same seed and tier to repeat it")
+		os.Exit(0)
+	}
+	return *rp.Case.Index
+}
